@@ -69,7 +69,8 @@ def proof_obligations(spec):
     ok, log = core.build_lean(["cvssmodel"] + mods)
     res = {"obligations": len(spec.theorems), "discharged": 0, "broken": [], "axioms": {}, "build_ok": ok}
     if not ok:
-        res["broken"].append("lake build failed: " + log[-1500:])
+        errs = [l for l in log.splitlines() if "error" in l.lower() and "warning" not in l.lower()]
+        res["broken"].append("lake build failed (a theorem or generated table no longer checks): " + (" | ".join(errs)[:1500] or log[-1500:]))
         return res
     listed, err = audit(mods)
     if err:
